@@ -40,6 +40,17 @@ UDIG = ['٣', '१२', '７', '0', '00', '12', '5', '٠١']
 def rand_digits(rng):
     return str(rng.randint(0, 30)) if rng.random() < 0.7 else rng.choice(UDIG)
 
+_ALT_DIGITS = [0x0660, 0x06F0, 0x0966, 0xFF10]      # Arabic-Indic, Extended Arabic-Indic, Devanagari, fullwidth
+def render_comp(rng, x):
+    """a component as text int() reads back as x: plain, zero padded, or (partly) in non-ASCII decimal digits"""
+    r = rng.random()
+    t = str(x)
+    if r < 0.7: return t
+    if r < 0.8: return '0' + t
+    base = rng.choice(_ALT_DIGITS)
+    if r < 0.9: return ''.join(chr(base + int(ch)) for ch in t)
+    return t[:-1] + chr(base + int(t[-1]))             # only the digit next to the marker is non-ASCII
+
 def rand_verstr(rng):
     t = rand_tuple(rng)
     s = '.'.join(map(str, t))
@@ -95,6 +106,12 @@ def rand_pred(rng):
 def gen_cases(rng, tier):
     n = 2200 if tier == 'quick' else 60000
     # boundary values first
+    for t, sfx in [('1.999', 'rc1'), ('999', 'a0'), ('1٣', 'a1'), ('1.٢', 'beta2'), ('6.7.999', 'rc1'), ('１', 'b1')]:
+        yield {'op': 'suffix', 'v': [int(x) for x in t.split('.')], 'text': t, 'sfx': sfx[:-1], 'd': sfx[-1], 'tail': ''}
+    for v in [[999], [1, 999], [999, 999], [999, 0, 999], [1, 0, 999, 999, 999], [999, 999, 999, 999, 999]]:
+        yield {'op': 'roundtrip', 'v': v}
+        yield {'op': 'str_roundtrip', 'v': v}
+        yield {'op': 'order', 'a': v, 'b': [max(0, x - 1) for x in v]}
     for s in ['1.2rc1', '1.2rc1\n', '1.2', '1.2\n', ' 1.+2', '1.2RC1', '1.2rc', '', '.', '999.999', '1000.0', '1.2alpha٣', '1٣a1']:
         yield {'op': 'to_int_str', 's': s}
     for s in INTS:
@@ -108,7 +125,10 @@ def gen_cases(rng, tier):
         elif r < 0.28: yield {'op': 'order', 'a': (t := rand_tuple(rng, False)), 'b': [rng.choice([x, x, rng.randint(0, 999)]) for x in t]}
         elif r < 0.44: yield {'op': 'to_int_str', 's': rand_verstr(rng)}
         elif r < 0.5: yield {'op': 'to_tuple', 's': rand_verstr(rng)}
-        elif r < 0.58: yield {'op': 'suffix', 'v': rand_tuple(rng), 'sfx': rng.choice(SUFF), 'd': rand_digits(rng), 'tail': rng.choice(['', '', '\n'])}
+        elif r < 0.58:
+            v = rand_tuple(rng)
+            yield {'op': 'suffix', 'v': v, 'text': '.'.join(render_comp(rng, x) for x in v), 'sfx': rng.choice(SUFF), 'd': rand_digits(rng),
+                   'tail': rng.choice(['', '', '\n'])}
         elif r < 0.62:
             base = rng.choice(INTS)
             yield {'op': 'int', 's': rng.choice(['%s', ' %s', '%s ', '+%s', '-%s', '%s_1', '1_%s', '%s\n']) % base}
@@ -157,7 +177,7 @@ def impl(c):
         try: return str(int(c['s']))
         except ValueError: return 'None'
     if op == 'suffix':
-        base = '.'.join(map(str, c['v']))
+        base = c['text']
         return '%s %s' % (_call(vu.convert_version_to_int, base), _call(vu.convert_version_to_int, base + c['sfx'] + c['d'] + c['tail']))
     if op == 'to_str':
         return vu.convert_version_to_str(c['n'])
@@ -180,7 +200,7 @@ def encode(c):
     if op == 'order': return ['order', ','.join(map(str, c['a'])), ','.join(map(str, c['b']))]
     if op in ('to_int_str', 'to_tuple', 'int'): return [op, c['s']]
     if op == 'suffix':
-        base = '.'.join(map(str, c['v']))
+        base = c['text']
         return ['suffix', base, base + c['sfx'] + c['d'] + c['tail']]
     if op == 'to_str': return ['to_str', str(c['n'])]
     if op == 'pred': return ['parse_pred', c['p']]
@@ -227,7 +247,7 @@ def oracle(c, io):
     elif op == 'suffix':
         # an alpha/beta/rc suffix (marker + digits) on the last component is ignored
         a, b = io.split(' ')
-        if a != b: return 'suffix %r not ignored on %r: %s vs %s' % (c['sfx'] + c['d'] + c['tail'], c['v'], a, b)
+        if a != b: return 'suffix %r not ignored on %r: %s vs %s' % (c['sfx'] + c['d'] + c['tail'], c['text'], a, b)
         if c['v'] and all(0 <= x <= 999 for x in c['v']) and a != str(_fold(c['v'])):
             return 'convert_version_to_int(%r) = %s' % (c['v'], a)
     elif op == 'to_int_str':
